@@ -106,3 +106,14 @@ mod wasm;
 
 #[cfg(target_arch = "wasm32")]
 pub use wasm::*;
+
+#[cfg(fast_qr_verif)]
+#[doc(hidden)]
+#[allow(missing_docs)]
+pub mod verif;
+
+#[cfg(all(fast_qr_verif, not(target_arch = "wasm32"), feature = "svg"))]
+#[path = "wasm.rs"]
+#[doc(hidden)]
+#[allow(missing_docs)]
+pub mod wasm_host;
